@@ -50,6 +50,7 @@ def reader_triple(run, roles, emit=True):
     # the data list is filled by exactly one byte request per loop iteration, loop count = _int_size
     # int.from_bytes(<data>): <data> is the accumulator, possibly through value-preserving conversions and single-definition names
     data = c.args[0] if c.args else None
+    aliases = set()
     for _ in range(6):
         if isinstance(data, ast.Call) and call_name(data) in ("bytes", "bytearray", "list", "tuple") and len(data.args) == 1 and not data.keywords:
             data = data.args[0]
@@ -59,6 +60,11 @@ def reader_triple(run, roles, emit=True):
             if len(defs) == 1 and isinstance(defs[0].value, ast.Call) and call_name(defs[0].value) in ("bytes", "bytearray", "list", "tuple") \
                     and len(defs[0].value.args) == 1:
                 data = defs[0].value.args[0]
+                continue
+            # a plain alias of the accumulator (`data = acc` - e.g. what an inlined reader helper returned)
+            if len(defs) == 1 and isinstance(defs[0].value, ast.Name):
+                aliases.add(data.id)
+                data = defs[0].value
                 continue
         break
     loops = [n for n in walk_no_nested(fn) if isinstance(n, ast.For)]
@@ -87,7 +93,7 @@ def reader_triple(run, roles, emit=True):
             (isinstance(inits[0].value, ast.Call) and call_name(inits[0].value) in ("list", "bytearray") and not inits[0].value.args
              and not inits[0].value.keywords))
         others = [a for a in walk_no_nested(fn) if isinstance(a, ast.Call) and isinstance(a.func, ast.Attribute) and data is not None
-                  and norm(a.func.value) == norm(data) and a not in appended and a.func.attr in
+                  and (norm(a.func.value) == norm(data) or norm(a.func.value) in aliases) and a not in appended and a.func.attr in
                   ("append", "extend", "insert", "pop", "remove", "clear", "reverse", "sort", "__setitem__")]
         okloop = (direct or named) and empty and not others
     return dict(V=V, call=c, byteorder=bo_r, signed=sg_r, count=count_src, loop_ok=okloop, tparam=t, mod=mod, fn=fn,
